@@ -15502,7 +15502,7 @@ cgns_user_data *cgi_user_data_address(int local_mode, int given_no,
         || (strcmp(posit->label,"ViscosityModel_t")==0)
         || (strcmp(posit->label,"ThermalConductivityModel_t")==0)
         || (strcmp(posit->label,"TurbulenceModel_t")==0)
-        || (strcmp(posit->label,"TurbulenceClosureModel_t")==0)
+        || (strcmp(posit->label,"TurbulenceClosure_t")==0)
         || (strcmp(posit->label,"ThermalRelaxationModel_t")==0)
         || (strcmp(posit->label,"ChemicalKineticsModel_t")==0)
         || (strcmp(posit->label,"EMElectricFieldModel_t")==0)
